@@ -194,7 +194,7 @@ func residueAll(c *enum.Ctx) {
 			}
 		}
 	}
-	// the size ladder of the run count: 2^k-1, 2^k, 2^k+1 run files (15..513) at chunk size 1, one and two cycles
+	// the size ladder of the run count: 2^k-1, 2^k, 2^k+1 (also 3*2^k, 10^j-1, 10^j, 10^j+1, 5*10^j) run files (15..513) at chunk size 1, one and two cycles
 	for _, n := range enum.Ladder(15, 513) {
 		for _, conc := range []bool{false, true} {
 			for _, ac := range []bool{false, true} {
